@@ -418,7 +418,7 @@ func c09Alt(r *Rng, depth int, ecma bool) string {
 
 var c09Fixed = []string{
 	`\d`, `a*`, `\b`, `(?=x)`, `(a)(b)?`, `(?<n>a)(?<5>b)`, `(a)(b)(c)(d)(e)(f)(g)(h)(i)(j)`, `(\w)(\d)?`,
-	`(?<o>a)+(?<-o>b)*`, `(?<o>a)(?<c-o>b)`, `(?<5>a)(?<20>b)?`, `(a)|(b)`, `(?:(a)|b)+`, `(é)(日)?`, ``, `x*?`, `(a*)`, `((a)|(b))*`,
+	`(?<o>a)+(?<-o>b)*`, `(?<o>a)(?<c-o>b)`, `(z)|(?<o>a)+(?<-o>b)`, `(?<x>z)?(?<o>a)+(?<-o>b)`, `(?:(?<o>a)|(?<c-o>b))+`, `(x)?(?:(?<o>a)|(?<-o>b))+`, `(?<o>a)+(?<-o>b)(c)?`, `(?<5>a)(?<20>b)?`, `(a)|(b)`, `(?:(a)|b)+`, `(é)(日)?`, ``, `x*?`, `(a*)`, `((a)|(b))*`,
 }
 
 type c09Compiled struct {
@@ -913,6 +913,8 @@ func legC09Replace(c *Ctx) {
 		{`\G+?[a-c1]`, 0, "xabc", "#", -1, -1},
 		{`\G+?[a-c1]`, 0, "ac\u00e9cB2xa ", "$+[a7", 6, -1},
 		{`(?:ab*){2}`, 0, "aba", "[$&]", -1, -1},
+		{`(z)|(?<o>a)+(?<-o>b)`, 0, "aaab", "$+[a7", -1, -1},
+		{`(?<x>z)?(?<o>a)+(?<-o>b)`, 0, "xaab aaab", "$+[a7", -1, -1},
 		{`(a)(b)?`, 0, "xaby", "[$1|$2|$3|${1}|${2|$1a|$10|$+|$_|$`|$'|$$|$]", -1, -1},
 	} {
 		cp := c09Compile(w.pat, w.opts)
